@@ -100,7 +100,7 @@ REVERT_PROPS = {
     'a node joining a bound pipeline binds': ['C19', 'C03'],
     'a node joining an asynchronous pipeline passes the mode': ['C19', 'C03'],
     'concurrent blocking emits do not trip': ['C16', 'C03'],
-    'rate_limit keeps arrival order and spacing': ['C02', 'C13'],
+    'rate_limit keeps arrival order and spacing': ['C13', 'C02'],
     'slice stays within its end': ['C01'],
 }
 
